@@ -39,9 +39,16 @@ def run(ctx):
     rnd = ctx.path("rnd.ndjson")
     ctx.vhrun(["c08-random", "20000" if thorough else "2000", rnd])
     vlib.validate_cases(ctx, "C08Trace", "C08Trace.cfg", rnd, label="random", timeout=3000, **kw)
+    # run-time layer: the generated code that executes the decision list (cancellable and plain parsers), all 8 predicate outcomes
+    rtout = ctx.path("rt.ndjson")
+    ctx.vhrun(["c08-rt", rnd, ctx.path("rtmod"), rtout, "160" if thorough else "40"], timeout=3000)
+    vlib.run(["rm", "-rf", ctx.path("rtmod")], check=False)
+    sigrt = lambda c: "rt:%s:%s" % ("cancellable" if c.get("cancellable") else "plain", sig(c))
+    vlib.validate_cases(ctx, "C08RtTrace", "C08RtTrace.cfg", rtout, label="runtime", sig=sigrt, rerun=None, input_keys=["alts", "cancellable", "tmtext"],
+                        observed_keys=["genErr", "chosen", "errs"], nontrivial=lambda c: c["genErr"] == "" and len(set(c["chosen"])) >= 2, timeout=3000)
     ctx.cov["exhaustive"] = True
     ctx.cov["rule"] = ("TLC enumerates every set of 2 alternatives (3003) and every%s set of 3 (76076) over 3 predicate inputs, each alternative a written sequence of 1-3 signed "
                        "predicates, plus seeded random sets of 2-5 in random order; each is compiled by the real lalr.Compile in a grammar where all "
                        "alternatives reduce in one state; TLC checks the recorded decision list against all 8 truth assignments and the rejection of non-exclusive / "
                        "inconsistently ordered sets. Non-trivial: accepted sets with at least one decision case." % ("" if thorough else " 6th"))
-    ctx.assumptions += ["exclusive, ordered sets the compiler nevertheless rejects are allowed by the statement", "the generated applyRule/lookahead() code that executes the list is bound by the run-time layer, not here"]
+    ctx.assumptions += ["exclusive, ordered sets the compiler nevertheless rejects are allowed by the statement", "run-time layer: a sample of accepted sets is generated as plain and cancellable parsers and run on all 8 predicate outcomes"]
